@@ -148,6 +148,13 @@ func (g *clientGen) noise() []simkernel.Item {
 
 var commonErrnos = []int32{1, 2, 17, 22, 12, 39, 11, 4, 16, 13, 28, 95, 105, 133, 34, 14}
 
+// recvErrnos: what recvfrom on a netlink socket fails with when it fails hard (0: an error that is no errno).
+var recvErrnos = []int32{0, 105, 5, 9, 12, 111, 1, 107, 90, 14, 22, 88}
+
+func (g *clientGen) failItem() simkernel.Item {
+	return simkernel.Item{K: "fail", Errno: recvErrnos[g.rng.Intn(len(recvErrnos))]}
+}
+
 func (g *clientGen) errno() int32 {
 	switch x := g.rng.Intn(20); {
 	case x < 9:
@@ -216,7 +223,7 @@ func (g *clientGen) ackItems(okBias int) (items []simkernel.Item, success bool) 
 	case y < 80: // datagram shorter than a header
 		items = append(items, rawItem(g.bytesN(g.rng.Intn(16)), nil))
 	case y < 85:
-		items = append(items, simkernel.Item{K: "fail"})
+		items = append(items, g.failItem())
 	case y < 88:
 		items = append(items, simkernel.Item{K: "nothing"})
 	case y < 91: // nothing at all
@@ -352,7 +359,7 @@ func (g *clientGen) getStatus(okBias int) KOp {
 		case x == 16:
 			items = append(items, g.ownMsg(1000, g.bytesN(44), g.foreignDelta()))
 		case x == 17:
-			items = append(items, simkernel.Item{K: "fail"})
+			items = append(items, g.failItem())
 		case x == 18:
 			items = append(items, g.transients(10)...)
 		}
@@ -386,7 +393,7 @@ func (g *clientGen) rulesPlan(okBias int) (simkernel.Plan, int) {
 				case 1:
 					items = append(items, g.ownMsg([]uint16{1000, 2, 1011, 0}[g.rng.Intn(4)], g.bytesN(20), 0))
 				case 2:
-					items = append(items, simkernel.Item{K: "fail"})
+					items = append(items, g.failItem())
 				case 3:
 					items = append(items, g.transients(10)...)
 				}
@@ -535,7 +542,7 @@ func (g *clientGen) receiveOp() KOp {
 	case x == 16:
 		it = simkernel.Item{K: "eintr"}
 	case x == 17:
-		it = simkernel.Item{K: "fail"}
+		it = g.failItem()
 	case x == 18:
 		it = simkernel.Item{K: "nothing"}
 	default:
@@ -702,6 +709,22 @@ func (g *clientGen) fixedCases() []KCase {
 		}
 		c.Ops = append(c.Ops, KOp{K: "wait"}, KOp{K: "wait"}, KOp{K: "setenabled", B: true, WM: 1, Plans: []simkernel.Plan{{Items: []simkernel.Item{g.ack(0)}}}}, KOp{K: "wait"})
 		out = append(out, c)
+	}
+	// a hard receive failure of every kind while acknowledgements are pending and while a command waits: the pending
+	// list is as it was (nothing was received), the next wait consumes the acknowledgements in order
+	for _, e := range recvErrnos {
+		for _, wrap := range []bool{false, true} {
+			f := simkernel.Item{K: "fail", Errno: e}
+			out = append(out, KCase{Kind: "history", BufLen: 64, WrapErrno: wrap, Ops: []KOp{
+				{K: "setratelimit", V: 7, WM: 2, Plans: []simkernel.Plan{{Items: []simkernel.Item{f, g.ack(0)}}}},
+				{K: "setbackloglimit", V: 8, WM: 2, Plans: []simkernel.Plan{{Items: []simkernel.Item{g.ack(13)}}}},
+				{K: "wait"}, {K: "wait"}, {K: "wait"},
+				{K: "setenabled", B: true, WM: 1, Plans: []simkernel.Plan{{Items: []simkernel.Item{g.ack(0)}}}}, {K: "wait"}}})
+			out = append(out, KCase{Kind: "history", BufLen: 64, WrapErrno: wrap, Ops: []KOp{
+				{K: "setratelimit", V: 7, WM: 1, Plans: []simkernel.Plan{{Items: []simkernel.Item{f, g.ack(0)}}}},
+				{K: "getstatus", Plans: []simkernel.Plan{{Items: []simkernel.Item{g.ack(0), f}}}},
+				{K: "setenabled", B: true, WM: 2, Plans: []simkernel.Plan{{Items: []simkernel.Item{g.ack(0)}}}}, {K: "wait"}, {K: "wait"}}})
+		}
 	}
 	// a reply that arrives after exactly k transient receive failures, k around the retry budget, for a waiting
 	// command, for WaitForPendingACKs, and on both sides of an unsolicited event; then the client is used again
